@@ -569,7 +569,14 @@ def get_binsize_all_bins(ctx):
                 out.append(x)
         return out
     for k, r in enumerate(rets):
-        conds = [c for c, p in r.guards] + [x[1] for x in T.walk(r.value) if x[0] == 'ite']
+        # truth conditions of the non-None result (guards with their polarity; for a conditional value the
+        # condition of the arm that holds the width)
+        def _has_next(t):
+            return any(y[0] == 'call' and y[1] == G('next') for y in T.walk(t))
+        conds = [(c if p else T.not_(c)) for c, p in r.guards]
+        for x in T.walk(r.value):
+            if x[0] == 'ite':
+                conds.append(x[1] if _has_next(x[2]) or not _has_next(x[3]) else T.not_(x[1]))
         hit = [c for c in conds if last_bin_terms(c)]
         ctx.check(bool(hit), R, f'return#{k}', ctx.where(fa, r), found=[T.show(c)[:200] for c in conds],
                   expected='a non-None bin size is conditioned on a test of the last bin of each chromosome',
